@@ -77,7 +77,7 @@ func (l *Listener) MotionDetected()   { l.T.Cur().Motion = true }
 func (l *Listener) RecordingStarted() { l.T.Cur().Started = true }
 func (l *Listener) RecordingEnded()   { l.T.Cur().Ended = true }
 
-var ErrInjected = errors.New("injected sink fault")
+var ErrInjected = errors.New("injected sink fault: /media/usb%20disk/cptv is 100% full (0%d free)") // text that looks like a format string
 
 // FaultPlan: per (op) the set of call ordinals (0-based, counted per sink and
 // op) that fail. Gate answers of the motion sink (CheckCanRecord, Start) come
